@@ -493,6 +493,14 @@ class Interp:
     def call(self, f, args, kwargs, frame=None, node=None):
         """Call any callable value."""
         self.path.steps += 1
+        stubs = self.cfg.get("stubs_map")
+        if stubs and isinstance(f, (types.FunctionType, types.BuiltinFunctionType)) and not self.is_interp_func(f):
+            try:
+                if f in stubs:
+                    self.contracts_used.add(f"{getattr(f, '__module__', '')}:{getattr(f, '__qualname__', f)} -> stub")
+                    f = stubs[f]
+            except TypeError:
+                pass
         if isinstance(f, BoundMethod):
             if isinstance(f.func, (types.FunctionType, IFunc)):
                 return self.call_function(f.func, [f.self_val] + list(args), kwargs, defcls=f.defcls)
